@@ -156,10 +156,14 @@ class LayerStream:
 _swapped = []       # [layer idx, its stdout, its stderr, the stdout it replaced, the stderr it replaced]
 
 
+_base_streams = []  # the std streams found by the latest layer setUp that ran with no stream-swapping layer set up
+
+
 def own_streams():
-    """with a stream-swapping layer set up: are sys.stdout / sys.stderr the innermost such layer's streams?"""
+    """are sys.stdout / sys.stderr the streams that were in place when the layers were set up (the innermost
+    stream-swapping layer's own streams, if there is one)?"""
     if not _swapped:
-        return True
+        return not _base_streams or (sys.stdout is _base_streams[0] and sys.stderr is _base_streams[1])
     return sys.stdout is _swapped[-1][1] and sys.stderr is _swapped[-1][2]
 
 
@@ -170,6 +174,8 @@ def make_hooks(idx, spec):
             k = _attempt("su", idx)
             raises = k in spec["setUpRaises"] or 999999 in spec["setUpRaises"]
             trace({"ev": "lsu", "l": idx, "ok": not raises})
+            if not _swapped:
+                _base_streams[:] = [sys.stdout, sys.stderr]
             if spec.get("dieInSetUp"):
                 trace({"ev": "die", "how": spec["dieInSetUp"]})
                 sys.stdout.flush()
@@ -313,6 +319,11 @@ def do_part(test, ph, part):
         # test code that changes the warning filters and does not restore them
         import warnings
         warnings.filterwarnings("ignore", message="ztr world %s" % (ph,))
+    if part.get("leakstreams"):
+        # a test that installs a stream of its own as sys.stdout and sys.stderr and goes wrong before it can put
+        # back what it found (only in worlds run with --buffer, where the runner owns the std streams of a test)
+        import io as _io
+        sys.stdout = sys.stderr = _io.StringIO()
     exc = part.get("exc")
     if exc and part.get("once"):
         # a test whose outcome depends on state that survives --repeat iterations: it raises only the first
